@@ -12,7 +12,8 @@
 From Coq Require Import List NArith Arith Lia Bool Sorted ZArith ZifyBool ZifyNat ZifyN.
 From M4 Require Import Base.Bits Lin.Mat Lin.MatAlg Lin.Ops Lin.OpsProofs Lin.Spec Lin.Span Lin.Echelon
                        Lin.Perm Lin.Tri Alg.Gauss Alg.GaussProofs Alg.PLE Alg.PLELemmas
-                       Alg.PLESpec Alg.PLEProofs Alg.PLEProofs3 Alg.PLEProofs5 Alg.TRSM Alg.EchelonPLUQ.
+                       Alg.PLESpec Alg.PLEProofs Alg.PLEProofs3 Alg.PLEProofs5 Alg.TRSM Alg.EchelonPLUQ
+                       Alg.GaussRef Alg.Gray Alg.M4RI Alg.M4RIProofs Alg.M4RINonFull.
 Import ListNotations.
 Local Open Scope nat_scope.
 
@@ -366,14 +367,486 @@ Example echelon_pluq_nonfull_example70 :
   rank A = 3.
 Proof. cbv zeta. split; [now apply wfb_spec|]. vm_compute. repeat split. Qed.
 
-(** NOT proved here (open): for the naive PLE with identity P0 Q0,
-      snd (echelon_pluq_run false A) = snd (gauss_delayed false 0 A)   for all wf A.
-    It does not follow from [ple_spec] (P is free); via GaussRef.ref_canonical it needs
-    [first_row_rule A [(k, P[k])]_{k<r}] for the naive loop, i.e. a loop invariant recording that
-    _mzd_ple_naive takes the FIRST row of the left-most column (the invariant [Inv] of PLEProofs2.v
-    only records "some row of the left-most column").  [lower_rel (apply_p_left A P) E] is available
-    from [ple_echelon] (P A = L E).  Evidence by evaluation: the two examples above and
-    [echelon_pluq_nonfull_partial] in Alg/EchelonPLUQProofs.v. *)
+(** For the naive PLE with identity P0 Q0 the result is moreover bit for bit the output of naive
+    Gauss: section 8 ([echelon_pluq_run_nonfull_canonical]); it does not follow from [ple_spec] alone
+    (P is free), see section 6. *)
+
+(** * 6. the result is canonical as soon as the row permutation obeys the pivot rule
+    P A = L E with L unit lower triangular is the relation [lower_rel] of Alg/GaussRef.v; so for EVERY
+    PLE routine meeting [ple_spec] whose row interchanges obey the "left-most column, first row" rule,
+    mzd_echelonize_pluq(A, 0) returns bit for bit the output of naive Gauss. *)
+Lemma lower_rel_unit_lower m L E : length (rows E) <= m -> lower_rel (mmul (unit_lower m L) E) E.
+Proof.
+  intros Hl i. destruct (Nat.lt_ge_cases i m) as [Hi|Hi].
+  - exists (N.land (row L i) (N.ones (N.of_nat i))). split.
+    + apply bounded_land_r, bounded_ones.
+    + rewrite row_mmul. unfold unit_lower. rewrite row_mk_map by assumption.
+      rewrite <- N.lxor_lor.
+      * fold (vmul (N.lxor (2 ^ N.of_nat i) (N.land (row L i) (N.ones (N.of_nat i)))) E).
+        rewrite vmul_lxor, vmul_pow2. symmetry. apply lxor_cancel_r.
+      * apply bits_ext_nat. intros j. rewrite !N.land_spec, testbit_pow2_nat, testbit_ones_nat, N.bits_0.
+        destruct (Nat.eqb_spec i j); [|reflexivity]. destruct (Nat.ltb_spec j i); [lia|]. now rewrite andb_false_r.
+  - exists 0%N. split; [apply bounded_0|]. rewrite row_mmul. unfold unit_lower.
+    rewrite row_mk_map_out by assumption. rewrite mul_row_0, vmul_0. rewrite Span.row_overflow by lia. reflexivity.
+Qed.
+
+Theorem echelon_pluq_nonfull_canonical pluq ple trsm A r A' P Q sw : wf A ->
+  ple A = ((r, A'), (P, Q)) -> ple_spec A ((r, A'), (P, Q)) ->
+  first_row_rule A sw -> apply_swaps sw A = apply_p_left A P ->
+  echelon_pluq pluq ple trsm false A = gauss_delayed false 0 A.
+Proof.
+  intros HA Eple Hspec Hrule Hsw.
+  destruct (echelon_pluq_nonfull_spec_d pluq ple trsm A r A' P Q HA Eple Hspec)
+    as (E & EE & Hr & HE & Hnr & Hnc & Heq & Href & _).
+  rewrite EE, (surjective_pairing (gauss_delayed false 0 A)). f_equal.
+  - rewrite gauss_rank by assumption. exact Hr.
+  - assert (E = nonfull_mat A' Q r) as ->.
+    { unfold echelon_pluq in EE. rewrite echelon_pluq_nonfull_unfold, Eple in EE. now injection EE. }
+    apply (ref_canonical A _ sw (firstn r Q)); auto.
+    rewrite Hsw. rewrite (nonfull_is_Epad A r A' P Q HA Hspec).
+    destruct Hspec as [Hs Hrec].
+    rewrite (pe_PA A r A' _ P Q HA Hs Hrec). apply lower_rel_unit_lower.
+    destruct (pe_wf_E A r A' (apply_p_right_trans_tri A' Q) P Q Hs) as (Hw & Hn & _).
+    rewrite (wf_len _ Hw). fold (plu_Epad A r (apply_p_right_trans_tri A' Q) Q). lia.
+Qed.
+
+(** * 7. the density-switching hybrid mzd_echelonize(A, 0) and the agreement of the routes *)
+Lemma ech_nonfull_ok_pluq pluq ple trsm : (forall W, wf W -> ple_spec W (ple W)) ->
+  ech_nonfull_ok (echelon_pluq pluq ple trsm).
+Proof.
+  intros Hple W HW. pose proof (echelon_pluq_nonfull_ref pluq ple trsm W HW (Hple W HW)) as H.
+  destruct (echelon_pluq pluq ple trsm false W) as [r E]. destruct H as (piv & H1 & _ & H3 & H4 & H5).
+  exists piv. cbn [fst snd]. now splits.
+Qed.
+
+Theorem mzd_echelonize_nonfull_spec pluq ple trsm k ktop oracle A : 1 <= k ->
+  (forall W, wf W -> ple_spec W (ple W)) -> wf A ->
+  exists M piv, mzd_echelonize_model pluq ple trsm k ktop oracle false A = Some (length piv, M) /\
+                length piv = rank A /\ wf M /\ row_equiv A M /\ is_ref M piv.
+Proof.
+  intros Hk Hple HA. unfold mzd_echelonize_model. apply m4ri_nonfull_spec; auto.
+  now apply ech_nonfull_ok_pluq.
+Qed.
+
+Theorem hybrid_run_nonfull_spec k ktop oracle A : 1 <= k -> wf A ->
+  exists M piv, hybrid_run k ktop oracle false A = Some (length piv, M) /\
+                length piv = rank A /\ wf M /\ row_equiv A M /\ is_ref M piv.
+Proof.
+  intros Hk HA. unfold hybrid_run. apply m4ri_nonfull_spec; auto.
+  unfold echelon_pluq_run. apply ech_nonfull_ok_pluq. intros W HW.
+  apply ple_naive_spec; [assumption|apply seq_length..].
+Qed.
+
+(** what C02 demands of a non-reduced result: the rank, a row echelon form (strictly increasing pivot
+    columns, zero rows last) with the row space of A, which mzd_top_echelonize_m4ri completes to THE
+    reduced row echelon form of A *)
+Definition ref_result (A : mat) (ktop : nat) (res : nat * mat) : Prop :=
+  fst res = rank A /\
+  exists piv, length piv = fst res /\ wf (snd res) /\ is_ref (snd res) piv /\ row_equiv A (snd res) /\
+              top_run ktop (snd res) = Some (rref A).
+
+Lemma ref_result_intro A ktop M piv : 1 <= ktop -> wf A -> wf M -> is_ref M piv -> row_equiv A M ->
+  ref_result A ktop (length piv, M).
+Proof.
+  intros Hk HA HM Href Heq. split; cbn [fst snd].
+  - now apply (rank_canonical A M).
+  - exists piv. splits; auto. unfold top_run. rewrite (top_echelonize_spec ktop M piv Hk Href HM). f_equal.
+    now destruct (top_reduce_rref A M piv HA HM Href Heq).
+Qed.
+
+Theorem nonfull_routes_agree pluq ple trsm k ktop ktop' oracle A : 1 <= k -> 1 <= ktop' ->
+  (forall W, wf W -> ple_spec W (ple W)) -> wf A ->
+  ref_result A ktop' (gauss_delayed false 0 A) /\
+  m4ri_run k false A = Some (gauss_delayed false 0 A) /\
+  ref_result A ktop' (echelon_pluq pluq ple trsm false A) /\
+  (exists res, mzd_echelonize_model pluq ple trsm k ktop oracle false A = Some res /\
+               ref_result A ktop' res).
+Proof.
+  intros Hk Hk' Hple HA. splits.
+  - destruct (gauss_spec_ex false A HA) as (piv & Hr & HM & Heq & Href).
+    rewrite (surjective_pairing (gauss_delayed false 0 A)), Hr. now apply ref_result_intro.
+  - now apply m4ri_run_nonfull_canonical.
+  - pose proof (echelon_pluq_nonfull_ref pluq ple trsm A HA (Hple A HA)) as H.
+    destruct (echelon_pluq pluq ple trsm false A) as [r E]. destruct H as (piv & -> & _ & H3 & H4 & H5).
+    now apply ref_result_intro.
+  - destruct (mzd_echelonize_nonfull_spec pluq ple trsm k ktop oracle A Hk Hple HA)
+      as (M & piv & E & _ & HM & Heq & Href).
+    exists (length piv, M). split; [assumption|]. now apply ref_result_intro.
+Qed.
+
+Example nonfull_routes_agree_example :
+  let A := mk 4 6 [45; 53; 13; 0]%N in
+  wf A /\ m4ri_run 2 false A = Some (3, mk 4 6 [45; 24; 32; 0]%N) /\
+  hybrid_run 1 1 (fun it => it =? 1) false A = Some (3, mk 4 6 [45; 24; 32; 0]%N) /\
+  top_run 2 (mk 4 6 [45; 24; 32; 0]%N) = Some (rref A).
+Proof. cbv zeta. split; [now apply wfb_spec|]. vm_compute. repeat split. Qed.
+
+(** * 8. the naive PLE model [ple_naive] (_mzd_ple_naive, m4ri/ple.c:223) makes the same row interchanges
+    as naive Gauss: its P obeys the pivot rule.  Method: the PLE working matrix M differs from the working
+    matrix of naive Gauss only by the L bits it keeps in the pivot columns (entries (i, q_t),
+    t < min(i, #pivots)); the loop invariant carries the "cleaned" companion matrix Mc existentially
+    together with the invariant [rinv] of Alg/GaussRef.v. *)
+From M4 Require Import Base.Bits Lin.Mat Lin.MatAlg Lin.Ops Lin.OpsProofs Lin.Spec Lin.Span Lin.Echelon
+  Lin.Observers Lin.Perm Alg.Gauss Alg.GaussProofs Alg.GaussRef Alg.Gray Alg.M4RI Alg.M4RIProofs
+  Alg.M4RINonFull Alg.PLE Alg.PLELemmas Alg.PLESpec Alg.PLEProofs Alg.PLEProofs2 Alg.PLEProofs3
+  Alg.TRSM Alg.EchelonPLUQ.
+
+(** ** 8.1 membership among the first n pivot columns *)
+Definition inpiv (pv : list nat) (n j : nat) : bool :=
+  existsb (fun t => j =? nth t pv 0) (seq 0 n).
+
+Lemma inpiv_S pv n j : inpiv pv (S n) j = inpiv pv n j || (j =? nth n pv 0).
+Proof.
+  unfold inpiv. rewrite seq_S, existsb_app. cbn [existsb Nat.add]. now rewrite orb_false_r.
+Qed.
+
+Lemma inpiv_app_le pv x n j : n <= length pv -> inpiv (pv ++ [x]) n j = inpiv pv n j.
+Proof.
+  induction n as [|n IH]; intros Hn; [reflexivity|].
+  rewrite !inpiv_S, IH by lia. now rewrite app_nth1 by lia.
+Qed.
+
+Lemma inpiv_app_S pv x j :
+  inpiv (pv ++ [x]) (S (length pv)) j = inpiv pv (length pv) j || (j =? x).
+Proof.
+  rewrite inpiv_S, inpiv_app_le by lia. rewrite app_nth2, Nat.sub_diag by lia. reflexivity.
+Qed.
+
+Lemma inpiv_ge pv c n j : (forall k, In k pv -> k < c) -> c <= j -> n <= length pv ->
+  inpiv pv n j = false.
+Proof.
+  intros Hlt Hj. induction n as [|n IH]; intros Hn; [reflexivity|].
+  rewrite inpiv_S, IH by lia. cbn [orb].
+  assert (nth n pv 0 < c) by (apply Hlt, nth_In; lia).
+  destruct (Nat.eqb_spec j (nth n pv 0)); [lia|reflexivity].
+Qed.
+
+(** the PLE working matrix with its L bits removed *)
+Definition cleanrel (M Mc : mat) (pv : list nat) : Prop :=
+  wf Mc /\ nr Mc = nr M /\ nc Mc = nc M /\
+  forall i j, get Mc i j = get M i j && negb (inpiv pv (Nat.min i (length pv)) j).
+
+Lemma cleanrel_ge M Mc pv c i j : cleanrel M Mc pv -> (forall k, In k pv -> k < c) -> c <= j ->
+  get Mc i j = get M i j.
+Proof.
+  intros (_ & _ & _ & Hg) Hlt Hj. rewrite Hg, (inpiv_ge pv c) by (auto; lia). apply andb_true_r.
+Qed.
+
+(** * 2. explicit steps of [GaussRef.rinv] *)
+Lemma rinv_advance A c c' M piv sw : rinv A c M piv sw -> c <= c' ->
+  (forall i j, length piv <= i -> c <= j < c' -> get M i j = false) -> rinv A c' M piv sw.
+Proof.
+  intros [Hg Hlen HBlen Hrel Hrule] Hc Hz. constructor; try assumption.
+  now apply (ginv_advance false A c c').
+Qed.
+
+Lemma find_row_from_first M s c j : wf M -> s <= j < nr M -> get M j c = true ->
+  (forall k, s <= k < j -> get M k c = false) -> find_row_from (rows M) 0 s c = Some j.
+Proof.
+  intros HM Hj Hg Hmin.
+  destruct (find_row_from (rows M) 0 s c) as [j'|] eqn:E.
+  - destruct (find_row_Some M s c j' E) as [Hj' [Hg' Hmin']]. f_equal.
+    destruct (Nat.lt_trichotomy j' j) as [Hlt|[->|Hgt]]; [|reflexivity|].
+    + rewrite Hmin in Hg' by lia. discriminate.
+    + rewrite Hmin' in Hg by lia. discriminate.
+  - rewrite (find_row_None M s c E j) in Hg by lia. discriminate.
+Qed.
+
+Lemma get_eliminate M s c i j : wf M -> (forall k, k < c -> get M s k = false) ->
+  get (eliminate false M s c) i j = xorb (get M i j) (elim_cond false M s c i && get M s j).
+Proof.
+  intros HM Hpz. unfold get at 1. rewrite row_eliminate.
+  rewrite (land_colmask_id (nc M) c (row M s)); [|now apply wf_row_bounded|exact Hpz].
+  rewrite N.lxor_spec. destruct (elim_cond false M s c i); [reflexivity|now rewrite N.bits_0].
+Qed.
+
+Lemma elim_cond_above M s c i : i <= s -> elim_cond false M s c i = false.
+Proof.
+  intros Hi. unfold elim_cond. cbn [orb]. destruct (Nat.ltb_spec s i); [lia|].
+  now rewrite andb_false_r, andb_false_l, andb_false_r.
+Qed.
+
+(** the first branch of [GaussRef.rinv_step], with the new state explicit *)
+Lemma rinv_pivot A c M piv sw j : rinv A c M piv sw ->
+  find_row_from (rows M) 0 (length piv) c = Some j ->
+  rinv A (S c) (eliminate false (row_swap M (length piv) j) (length piv) c)
+       (piv ++ [c]) (sw ++ [(length piv, j)]).
+Proof.
+  intros [Hg Hlen HBlen Hrel Hrule] E.
+  set (s := length piv) in *. set (B := apply_swaps sw A) in *.
+  destruct (find_row_Some M s c j E) as [Hj [Hgj Hminj]].
+  pose proof (wf_len M (gi_wf _ _ _ _ _ Hg)) as HlM.
+  pose proof (gi_equiv _ _ _ _ _ Hg) as [HnrA _].
+  assert (Hlen' : length (piv ++ [c]) = S s) by (rewrite app_length; cbn [length]; unfold s; lia).
+  assert (Hj' : s <= j < nr M) by lia.
+  destruct (ginv_swap false A c M piv j Hg Hj' Hgj) as [Hg1 Hgs]. fold s in Hg1, Hgs.
+  set (M1 := row_swap M s j) in *.
+  assert (Hs1 : s < nr M1) by (cbn [nr M1 row_swap set_row]; lia).
+  pose proof (ginv_elim false A c M1 piv Hg1 Hs1 Hgs) as Hg2. fold s in Hg2.
+  assert (Hpz : forall col, col < c -> get M1 s col = false)
+    by (intros col Hcol; apply (gi_zero _ _ _ _ _ Hg1); [unfold s; lia|assumption]).
+  constructor.
+  + exact Hg2.
+  + rewrite app_length, Hlen'. cbn [length]. unfold s. lia.
+  + rewrite apply_swaps_app. cbn [fst snd]. fold B.
+    rewrite rows_eliminate_length. unfold M1. now rewrite !rows_row_swap_length.
+  + rewrite Hlen', apply_swaps_app. cbn [fst snd]. fold B.
+    apply (lrel_elim s M1 (row_swap B s j) _ (elim_cond false M1 s c)).
+    * intros i. rewrite row_eliminate.
+      rewrite (land_colmask_id (nc M1) c (row M1 s));
+        [reflexivity|apply wf_row_bounded, (gi_wf _ _ _ _ _ Hg1)|exact Hpz].
+    * intros i Hi. unfold elim_cond in Hi. cbn [orb] in Hi.
+      apply andb_true_iff in Hi as [_ Hi]. apply andb_true_iff in Hi as [Hi _].
+      apply andb_true_iff in Hi as [_ Hi]. now apply Nat.ltb_lt.
+    * apply lrel_swap; [lia|lia|assumption|exact Hrel].
+  + intros k Hk. rewrite app_length in Hk. cbn [length] in Hk.
+    destruct (Nat.eq_dec k (length sw)) as [->|Hne].
+    * unfold rule_at. rewrite app_nth2 by lia. rewrite Nat.sub_diag. cbn [nth fst snd].
+      rewrite firstn_app, firstn_all, Nat.sub_diag. cbn [firstn]. rewrite app_nil_r. fold B.
+      rewrite Hlen. fold s. split; [reflexivity|]. split; [lia|].
+      exists c. split; [|split].
+      -- apply (not_dep_of_pivot c M B piv j);
+           [apply (gi_sorted _ _ _ _ _ Hg)|apply (gi_lt _ _ _ _ _ Hg)|apply (gi_lead _ _ _ _ _ Hg)
+           |exact Hrel| |exact Hgj].
+         intros col Hcol. apply (gi_zero _ _ _ _ _ Hg); [unfold s in *; lia|assumption].
+      -- intros j' Hj''. apply (dep_of_zero s M B j' c Hrel). intros col Hcol.
+         destruct (Nat.eq_dec col c) as [->|Hnc]; [now apply Hminj|].
+         apply (gi_zero _ _ _ _ _ Hg); [unfold s in *; lia|lia].
+      -- intros c' j' Hc' Hj''. apply (dep_of_zero s M B j' c' Hrel). intros col Hcol.
+         apply (gi_zero _ _ _ _ _ Hg); [unfold s in *; lia|lia].
+    * apply rule_at_app; [lia|]. apply Hrule. lia.
+Qed.
+
+(** when the rows below the pivots vanish from column c on, the interchanges made so far are all *)
+Lemma rinv_exit A c M piv sw : rinv A c M piv sw ->
+  (forall i j, length piv <= i -> c <= j -> get M i j = false) -> first_row_rule A sw.
+Proof.
+  intros [Hg Hlen HBlen Hrel Hrule] Hz. split; [assumption|].
+  intros j c0 Hj. rewrite Hlen. apply (dep_of_zero (length piv) M _ j c0 Hrel).
+  intros col _. destruct (Nat.lt_ge_cases col c) as [Hc|Hc].
+  - apply (gi_zero _ _ _ _ _ Hg); lia.
+  - apply Hz; lia.
+Qed.
+
+(** * 3. the loop of [ple_naive] *)
+Lemma ple_loop_rule A : wf A -> forall n M P Q t c,
+  n = nr A - t -> wf M -> nr M = nr A -> nc M = nc A -> length P = nr A ->
+  (exists Mc pv sw, rinv A c Mc pv sw /\ cleanrel M Mc pv /\ length pv = t /\
+     (forall k, k < t -> nth k sw (0, 0) = (k, nth k P 0)) /\ t <= nr A) ->
+  let '(M', (P', Q'), r) := ple_naive_loop n M P Q t c in
+  exists sw, length sw = r /\ r <= nr A /\ length P' = nr A /\ first_row_rule A sw /\
+             (forall k, k < r -> nth k sw (0, 0) = (k, nth k P' 0)).
+Proof.
+  intros HA. induction n as [|n IH]; intros M P Q t c Hn HM Hnr Hnc HP (Mc & pv & sw & HR & HC & Hpv & Hsw & Ht);
+    cbn [ple_naive_loop].
+  - (* row_pos = nrows *)
+    exists sw. pose proof (ri_len _ _ _ _ _ HR) as Hl. splits; auto; [lia|].
+    apply (rinv_exit A c Mc pv sw HR). intros i j Hi _.
+    destruct HC as (HwC & HnrC & _). apply get_out_row; [assumption|]. lia.
+  - pose proof (ri_len _ _ _ _ _ HR) as Hl. pose proof (ri_g _ _ _ _ _ HR) as Hg.
+    pose proof (gi_lt _ _ _ _ _ Hg) as Hlt.
+    assert (HGE : forall i j, c <= j -> get Mc i j = get M i j)
+      by (intros i j Hj; now apply (cleanrel_ge M Mc pv c)).
+    destruct (Nat.ltb_spec c (nc M)) as [Hc|Hc].
+    2:{ exists sw. splits; auto; [lia|].
+        apply (rinv_exit A c Mc pv sw HR). intros i j _ Hj. rewrite HGE by assumption.
+        apply get_out_col; [assumption|lia]. }
+    destruct (find_pivot_spec M t c HM) as [HN HS].
+    destruct (find_pivot M t c) as [[i0 j0]|] eqn:Efp.
+    2:{ exists sw. splits; auto; [lia|].
+        apply (rinv_exit A c Mc pv sw HR). intros i j Hi Hj. rewrite HGE by assumption.
+        apply (proj1 HN eq_refl); lia. }
+    destruct (HS i0 j0 eq_refl) as (Hpiv & Hi0 & Hj0 & Hz & Hab). clear HN HS.
+    pose proof (wf_len M HM) as HlM.
+    destruct HC as (HwC & HnrC & HncC & HgC).
+    pose proof (wf_len Mc HwC) as HlC.
+    (* the Gauss side: advance to column j0, take row i0 *)
+    assert (HR0 : rinv A j0 Mc pv sw).
+    { apply (rinv_advance A c j0); [assumption|lia|]. intros i j Hi Hj. rewrite HGE by lia. apply Hz; lia. }
+    assert (Efr : find_row_from (rows Mc) 0 (length pv) j0 = Some i0).
+    { apply find_row_from_first; [assumption|lia| |].
+      - rewrite HGE by lia. exact Hpiv.
+      - intros k Hk. rewrite HGE by lia. apply Hab; lia. }
+    pose proof (rinv_pivot A j0 Mc pv sw i0 HR0 Efr) as HR1. rewrite Hpv in HR1.
+    pose proof (gi_zero _ _ _ _ _ (ri_g _ _ _ _ _ HR0)) as Hzero0.
+    set (Mc1 := row_swap Mc t i0) in *.
+    assert (HwC1 : wf Mc1) by now apply Span.wf_row_swap.
+    assert (HgC1 : forall i j, get Mc1 i j = get Mc (swapn t i0 i) j)
+      by (intros i j; apply PLELemmas.get_row_swap; lia).
+    assert (Hpz : forall k, k < j0 -> get Mc1 t k = false).
+    { intros k Hk. rewrite HgC1, swapn_l. apply Hzero0; lia. }
+    (* the PLE side *)
+    set (M1 := row_swap M t i0).
+    assert (HM1 : wf M1) by now apply Span.wf_row_swap.
+    assert (HgM1 : forall i j, get M1 i j = get M (swapn t i0 i) j)
+      by (intros i j; apply PLELemmas.get_row_swap; lia).
+    change (nc M1) with (nc M).
+    destruct (get_elim_guard M1 t j0 (S j0) HM1) as (Hw & Hr & Hcc & Hge); [change (nr M1) with (nr M); lia|].
+    change (nc M1) with (nc M) in Hge, Hw, Hr, Hcc |- *. change (nr M1) with (nr M) in Hr.
+    set (M2 := if S j0 <? nc M then elim_below M1 t j0 (S j0) else M1) in *.
+    apply IH; try assumption.
+    + lia.
+    + congruence.
+    + congruence.
+    + now rewrite upd_length.
+    + exists (eliminate false Mc1 t j0), (pv ++ [j0]), (sw ++ [(t, i0)]).
+      split; [exact HR1|]. split; [|split; [|split]].
+      * (* the cleaned matrices correspond *)
+        unfold cleanrel. split; [now apply wf_eliminate|]. split; [cbn [nr eliminate map_rows Mc1 row_swap set_row]; lia|].
+        split; [cbn [nc eliminate map_rows Mc1 row_swap set_row]; lia|].
+        intros i j. rewrite app_length. cbn [length]. rewrite Hpv, Nat.add_1_r.
+        rewrite get_eliminate by assumption. rewrite Hge, !HgC1, !HgM1, !swapn_l.
+        destruct (lt_eq_lt_dec i t) as [[Hit|Hit]|Hit].
+        -- rewrite elim_cond_above by lia. destruct (Nat.ltb_spec t i); [lia|]. cbn [andb].
+           rewrite !xorb_false_r, swapn_other by lia. rewrite HgC, Hpv.
+           replace (Nat.min i (S t)) with (Nat.min i t) by lia.
+           now rewrite inpiv_app_le by lia.
+        -- subst i. rewrite elim_cond_above by lia. destruct (Nat.ltb_spec t t); [lia|]. cbn [andb].
+           rewrite !xorb_false_r, swapn_l. rewrite HgC, Hpv.
+           replace (Nat.min i0 t) with t by lia. replace (Nat.min t (S t)) with t by lia.
+           now rewrite inpiv_app_le by lia.
+        -- rewrite elim_cond_other by (try right; lia). rewrite HgC1.
+           destruct (Nat.ltb_spec t i); [|lia]. cbn [andb].
+           replace (Nat.min i (S t)) with (S t) by lia.
+           assert (EI : inpiv (pv ++ [j0]) (S t) j = inpiv pv t j || (j =? j0))
+             by (rewrite <- Hpv; apply inpiv_app_S).
+           rewrite EI.
+           set (i' := swapn t i0 i).
+           assert (Hi' : t <= i') by (unfold i'; apply swapn_ge; lia).
+           rewrite (HGE i' j0) by lia. rewrite !HgC, Hpv.
+           replace (Nat.min i' t) with t by lia. replace (Nat.min i0 t) with t by lia.
+           destruct (lt_eq_lt_dec j j0) as [[Hj|Hj]|Hj].
+           ++ assert (E : get M i0 j && negb (inpiv pv t j) = false).
+              { replace t with (Nat.min i0 (length pv)) by lia. rewrite <- HgC. apply Hzero0; lia. }
+              rewrite E, andb_false_r, xorb_false_r.
+              destruct (Nat.leb_spec (S j0) j); [lia|]. destruct (Nat.eqb_spec j j0); [lia|].
+              now rewrite andb_false_r, andb_false_l, xorb_false_r, orb_false_r.
+           ++ subst j. rewrite Hpiv, Nat.eqb_refl, orb_true_r. cbn [negb andb]. rewrite andb_false_r.
+              apply xorb_nilpotent.
+           ++ rewrite (inpiv_ge pv c) by (auto; lia).
+              destruct (Nat.leb_spec (S j0) j); [|lia]. destruct (Nat.eqb_spec j j0); [lia|].
+              cbn [negb orb]. now rewrite !andb_true_r.
+      * rewrite app_length. cbn [length]. lia.
+      * intros k Hk. destruct (Nat.eq_dec k t) as [->|Hne].
+        -- rewrite app_nth2 by lia. replace (t - length sw) with 0 by lia. cbn [nth].
+           now rewrite nth_upd_same by lia.
+        -- rewrite app_nth1 by lia. rewrite nth_upd_other by assumption. apply Hsw. lia.
+      * lia.
+Qed.
+
+(** * 4. LAPACK permutation vector vs list of interchanges *)
+Lemma apply_swaps_map (f : nat -> nat) l A :
+  apply_swaps (map (fun i => (i, f i)) l) A = fold_left (fun M i => row_swap M i (f i)) l A.
+Proof.
+  unfold apply_swaps. revert A. induction l as [|a l IH]; intros A; cbn [map fold_left fst snd]; [reflexivity|].
+  apply IH.
+Qed.
+
+Lemma swaps_as_map (f : nat -> nat) sw r : length sw = r ->
+  (forall k, k < r -> nth k sw (0, 0) = (k, f k)) -> sw = map (fun i => (i, f i)) (seq 0 r).
+Proof.
+  intros Hl H. apply (nth_ext _ _ (0, 0) ((fun i => (i, f i)) 0)).
+  - now rewrite map_length, seq_length.
+  - intros k Hk. rewrite (map_nth (fun i => (i, f i)) (seq 0 r) 0 k), seq_nth by lia. cbn [Nat.add]. apply H. lia.
+Qed.
+
+Lemma fold_row_swap_id (f : nat -> nat) l : forall M, wf M -> (forall i, In i l -> f i = i) ->
+  fold_left (fun M i => row_swap M i (f i)) l M = M.
+Proof.
+  induction l as [|a l IH]; intros M HM H; cbn [fold_left]; [reflexivity|].
+  rewrite (H a) by now left. rewrite PLELemmas.row_swap_same by assumption.
+  apply IH; [assumption|]. intros i Hi. apply H. now right.
+Qed.
+
+Lemma fold_row_swap_wf (f : nat -> nat) l : forall M, wf M ->
+  wf (fold_left (fun M i => row_swap M i (f i)) l M).
+Proof.
+  induction l as [|a l IH]; intros M HM; cbn [fold_left]; [assumption|].
+  apply IH. now apply Span.wf_row_swap.
+Qed.
+
+Lemma apply_p_left_swaps A P sw r : wf A -> length P = nr A -> length sw = r -> r <= nr A ->
+  (forall k, k < r -> nth k sw (0, 0) = (k, nth k P 0)) ->
+  apply_swaps sw A = apply_p_left A (fill_id r P).
+Proof.
+  intros HA HP Hl Hr Hsw. unfold apply_p_left. rewrite fill_id_length, HP, Nat.min_id.
+  replace (nr A) with (r + (nr A - r)) at 1 by lia. rewrite seq_app, fold_left_app. cbn [Nat.add].
+  rewrite fold_row_swap_id.
+  - rewrite <- apply_swaps_map. f_equal. apply swaps_as_map; [assumption|].
+    intros k Hk. rewrite Hsw by assumption. f_equal. unfold pval.
+    rewrite (nth_indep _ k 0) by (rewrite fill_id_length; lia). rewrite nth_fill_id by lia.
+    destruct (Nat.leb_spec r k); [lia|reflexivity].
+  - now apply fold_row_swap_wf.
+  - intros i Hi. apply in_seq in Hi. unfold pval.
+    rewrite (nth_indep _ i 0) by (rewrite fill_id_length; lia). rewrite nth_fill_id by lia.
+    destruct (Nat.leb_spec r i); [reflexivity|lia].
+Qed.
+
+(** * 5. the row interchanges of [ple_naive] obey the pivot rule *)
+Theorem ple_naive_rule A P0 Q0 : wf A -> length P0 = nr A -> length Q0 = nc A ->
+  let '((r, A'), (P, Q)) := ple_naive A P0 Q0 in
+  exists sw, first_row_rule A sw /\ apply_swaps sw A = apply_p_left A P.
+Proof.
+  intros HA HP0 HQ0. unfold ple_naive.
+  pose proof (ple_loop_rule A HA (nr A) A P0 Q0 0 0 ltac:(lia) HA eq_refl eq_refl HP0) as H.
+  destruct (ple_naive_loop (nr A) A P0 Q0 0 0) as [[M [P Q]] r].
+  destruct H as (sw & Hl & Hr & HP & Hrule & Hsw).
+  - exists A, [], []. split; [now apply rinv_init|]. split; [|split; [reflexivity|split; [|lia]]].
+    + unfold cleanrel. splits; auto. intros i j. cbn [length]. rewrite Nat.min_0_r. cbn [inpiv seq existsb negb].
+      now rewrite andb_true_r.
+    + intros k Hk. lia.
+  - exists sw. split; [assumption|]. now apply apply_p_left_swaps.
+Qed.
+
+Example ple_naive_rule_hyps : exists (A : mat) (P0 Q0 : list nat), wf A /\ length P0 = nr A /\ length Q0 = nc A /\ nr A = 2.
+Proof. exists (mk 2 3 [5%N; 5%N]), [9; 9], [7; 7; 7]. split; [now apply wfb_spec|repeat split]. Qed.
+
+(** mzd_echelonize_pluq(A, 0) with the naive PLE returns bit for bit the output of naive Gauss *)
+Theorem echelon_pluq_run_nonfull_canonical A : wf A ->
+  echelon_pluq_run false A = gauss_delayed false 0 A.
+Proof.
+  intros HA. unfold echelon_pluq_run.
+  pose proof (ple_naive_spec A (seq 0 (nr A)) (seq 0 (nc A)) HA (seq_length _ _) (seq_length _ _)) as Hspec.
+  pose proof (ple_naive_rule A (seq 0 (nr A)) (seq 0 (nc A)) HA (seq_length _ _) (seq_length _ _)) as Hrule.
+  destruct (ple_naive A (seq 0 (nr A)) (seq 0 (nc A))) as [[r A'] [P Q]] eqn:E.
+  destruct Hrule as (sw & Hrule & Hsw).
+  apply (echelon_pluq_nonfull_canonical _ (fun A => ple_naive A (seq 0 (nr A)) (seq 0 (nc A))) _ A r A' P Q sw);
+    assumption.
+Qed.
+
+Example echelon_pluq_run_nonfull_canonical_example :
+  let A := mk 4 6 [45; 53; 13; 0]%N in
+  wf A /\ echelon_pluq_run false A = (3, mk 4 6 [45; 24; 32; 0]%N) /\
+  gauss_delayed false 0 A = (3, mk 4 6 [45; 24; 32; 0]%N).
+Proof. cbv zeta. split; [now apply wfb_spec|]. vm_compute. repeat split. Qed.
+
+
+(** * 9. the runnable hybrid (M4RI with any switching decisions + naive PLE on the window), non-reduced
+    mode: bit for bit the output of naive Gauss *)
+Theorem hybrid_run_nonfull_canonical k ktop oracle A : 1 <= k -> wf A ->
+  hybrid_run k ktop oracle false A = Some (gauss_delayed false 0 A).
+Proof.
+  intros Hk HA. unfold hybrid_run. apply m4ri_nonfull_canonical_any; auto.
+  intros W HW. now apply echelon_pluq_run_nonfull_canonical.
+Qed.
+
+(** ... and for every PLE meeting [ple_spec] whose interchanges obey the rule on every window *)
+Theorem mzd_echelonize_nonfull_canonical pluq ple trsm k ktop oracle A : 1 <= k ->
+  (forall W, wf W -> ple_spec W (ple W) /\
+     exists sw, first_row_rule W sw /\ apply_swaps sw W = apply_p_left W (fst (snd (ple W)))) ->
+  wf A ->
+  mzd_echelonize_model pluq ple trsm k ktop oracle false A = Some (gauss_delayed false 0 A).
+Proof.
+  intros Hk Hple HA. unfold mzd_echelonize_model. apply m4ri_nonfull_canonical_any; auto.
+  intros W HW. destruct (Hple W HW) as (Hspec & sw & Hrule & Hsw).
+  destruct (ple W) as [[r A'] [P Q]] eqn:E. cbn [fst snd] in Hsw.
+  now apply (echelon_pluq_nonfull_canonical pluq ple trsm W r A' P Q sw).
+Qed.
 
 Print Assumptions echelon_pluq_nonfull_spec.
 Print Assumptions echelon_pluq_run_nonfull_spec.
+Print Assumptions echelon_pluq_nonfull_canonical.
+Print Assumptions nonfull_routes_agree.
+Print Assumptions ple_naive_rule.
+Print Assumptions echelon_pluq_run_nonfull_canonical.
+Print Assumptions hybrid_run_nonfull_canonical.
